@@ -240,3 +240,77 @@ inductive Reach (c : Cfg) : State → Prop where
   | step {s e s'} : Reach c s → step c s e = some s' → Reach c s'
 
 end Grog.Sys
+
+/-
+  Life cycle of one `grog build` / `grog test` / `grog run` process with respect to cancellation
+  (internal/cmd/cmds/build.go RunBuild, run.go runTargetBinaries, console/cmd_setup.go):
+  load the BUILD files, analyse and select, wait for the workspace lock, execute (the walker), and —
+  for `grog run` — start the built binary under the command context and wait for it.
+  A signal cancels the root context at any moment; what the process then exits with, per phase:
+    loading      a loader that looks at the context (BUILD.star) fails: Fatalf, exit 1; the others finish
+    lockWait     `locker.Lock(ctx)` returns ctx.Err(): Fatalf, exit 1
+    executing    Walk returns through ctx.Done: exit 1 (C18.exit_nonzero); or it had already finished
+    running      exec.CommandContext refuses to start / kills the binary: cmd.Run fails: Fatalf, exit 1
+-/
+namespace Grog.Life
+
+inductive Cmd where
+  | build | test | run
+  deriving DecidableEq, Repr
+
+inductive Phase where
+  | loading | selecting | lockWait | executing | starting | running | exited (code : Nat)
+  deriving DecidableEq, Repr
+
+structure State where
+  phase : Phase
+  ctx   : Bool      -- the root context is cancelled
+  deriving DecidableEq, Repr
+
+def init : State := { phase := .loading, ctx := false }
+
+/-- how the execution phase ended -/
+inductive ExecEnd where
+  | viaCtx                   -- Walk returned through ctx.Done (context error, or fail-fast with a failure)
+  | finished (failed : Bool) -- Walk returned through the wait group; some target failed / none did
+  deriving DecidableEq, Repr
+
+inductive Ev where
+  | cancel
+  | loadDone (err : Bool)
+  | selected
+  | lockAcquired
+  | lockGaveUp
+  | executed (r : ExecEnd)
+  | binStarted
+  | binRefused
+  | binExit (code : Nat)
+  deriving DecidableEq, Repr
+
+def step (cmd : Cmd) (s : State) : Ev → Option State
+  | .cancel => match s.phase with
+    | .exited _ => none
+    | _ => if s.ctx then none else some { s with ctx := true }
+  | .loadDone err =>
+    if s.phase = .loading then
+      if err then (if s.ctx then some { s with phase := .exited 1 } else none)   -- only a cancelled load fails here
+      else some { s with phase := .selecting }
+    else none
+  | .selected => if s.phase = .selecting then some { s with phase := .lockWait } else none
+  | .lockAcquired => if s.phase = .lockWait then some { s with phase := .executing } else none
+  | .lockGaveUp => if s.phase = .lockWait ∧ s.ctx = true then some { s with phase := .exited 1 } else none
+  | .executed r =>
+    if s.phase = .executing then
+      match r with
+      | .viaCtx => if s.ctx then some { s with phase := .exited 1 } else none
+      | .finished true => some { s with phase := .exited 1 }
+      | .finished false => some { s with phase := if cmd = .run then .starting else .exited 0 }
+    else none
+  | .binStarted => if s.phase = .starting ∧ s.ctx = false then some { s with phase := .running } else none
+  | .binRefused => if s.phase = .starting ∧ s.ctx = true then some { s with phase := .exited 1 } else none
+  | .binExit code =>
+    if s.phase = .running then
+      some { s with phase := .exited (if s.ctx then 1 else if code = 0 then 0 else 1) }   -- killed by the context: cmd.Run fails
+    else none
+
+end Grog.Life
